@@ -161,6 +161,15 @@ func lockedTypes(p *core.Program) []*lockedType {
 
 func c11(r *core.Run) {
 	p := r.P
+	// a reader's snapshot sees a mutation all at once only if the mutation is ONE batch: the one-batch rule of C07
+	// (no direct write next to the batch, a single commit) is a necessary condition here too
+	defer func() {
+		ex, un, as := r.Explain, r.Undecided, r.Assume
+		r.Filter = func(o *core.Obligation) bool { return o.Rule == "C07.ONEBATCH" }
+		r.Under("C07.ONEBATCH", "C11.ATOMIC", func() { c07(r) })
+		r.Filter = nil
+		r.Explain, r.Undecided, r.Assume = ex+" (ATOMIC) every mutation of the embedded store is applied as one batch with a single commit (rule shared with C07): a snapshot taken by a concurrent scan contains all of it or none of it.", un, as
+	}()
 	r.Explain = "C11 decided structurally: (SNAP) in every function of the embedded store that produces alerts or candidates, each index iterator and each record fetch — also inside closures — uses one and the same *pebble.Snapshot value, never the live DB handle; (LOCK) for both stores, every read of a mutex-guarded field happens with at least the read lock certainly held and every write (and every durable database write) with the write lock held, computed by a forward must-lockset analysis per method with deferred unlocks; (NOESCAPE) the JSON store's getters return fresh copies, never pointers into the guarded slice. Lookups that return signatures rather than alerts (GetSignatureByTopology, ScanByEntropyRange) use the live handle and are listed as outside the statement. Not decided: absence of races inside Pebble, liveness. (SNAP, sharpened) store helpers called from a scan that read the live handle themselves count as live reads; (LOCK, sharpened) in a method that commits, every database read happens with the write lock held; unexported methods inherit the least lock level held at their call sites."
 	r.Undecided = []string{"data races inside Pebble itself", "liveness / lock ordering (single mutex per store: no ordering issue by construction)"}
 	r.Assume = []string{"a *pebble.Snapshot gives a consistent point-in-time view", "sync.RWMutex semantics"}
